@@ -1,7 +1,7 @@
 #!/bin/bash
 # runs every registered check (quick by default) on the current /repo tree and prints one line per property
 tier=${1:-quick}
-cd /verif
+cd "$(dirname "$(readlink -f "$0")")/.."
 for i in 01 02 03 04 05 06 07 08 09 10 11 12 13 14 15 16 17 18 19 20; do
   s=$(date +%s); out=$(./check C$i --tier $tier 2>&1); rc=$?; e=$(date +%s)
   echo "C$i rc=$rc $((e-s))s $(echo "$out" | grep -E '^(OK|FAIL|UNDECIDED) property' | tail -1)"
